@@ -13,8 +13,8 @@ from ref import oracle
 from props import rebuild_common as rc
 
 GEN_FILES = ["GenEffects.v"]
-EXTRA_TARGETS = ["Extract/ExtractRebuild.vo"]
-AREAS = ["rebuild"]
+EXTRA_TARGETS = ["Extract/ExtractRebuild.vo", "Extract/ExtractRebuildRun.vo"]
+AREAS = ["rebuild", "rebuildrun"]
 RULE = ("model tie: (1) utils.copypath run on small real filesystems built in a scratch directory (1-4 path elements over the names "
         "a-d; source a file / a directory / absent; destination absent with missing ancestors, a shorter / equal / longer file, a "
         "directory, below a file, equal to the source, of one element, relative to the working directory and absolute) vs the extracted "
@@ -364,6 +364,9 @@ def run(ctx, model_ok):
     rc.match_v1_tie(ctx, model_ok)
     rc.match_v2_tie(ctx, model_ok)
     rc.parts_tie(ctx, model_ok)
+    # the composition Metadata(metafile).rebuild(filemap, dest) on a real scratch filesystem vs Model/RebuildRun.v rebuild_of_metafile
+    from props import rebuild_pipeline
+    rebuild_pipeline.tie_rebuild_run(ctx, model_ok)
     e2e(ctx)
 
 
